@@ -122,6 +122,19 @@ def build_pool(ctx, index):
         "suit-parameter-image-size": {"file": P("blob1.bin")}}}]
     sut.dump_desc(fdesc, P("fdesc.json"))
     ops.append({"kind": "create", "input": P("fdesc.json"), "family": "create", "reads": [P("blob1.bin")]})
+    # payloads given inline as hex strings that are also plausible file names: the working directory may hold files of those names (see the
+    # directory sweep) - an inline payload is what the description says, wherever the tool is started
+    hdesc = _desc_min(15, "acme.com", "inline", {"suit-integrated-payloads": {"#a": "C0FFEE", "#b": "c0ffee", "#c": "00", "#d": "deadbeef"}})
+    sut.dump_desc(hdesc, P("hexpay.json"))
+    sut.dump_desc(hdesc, P("hexpay.yaml"))
+    ops.append({"kind": "create", "input": P("hexpay.json"), "family": "create", "pair": "hexpay"})
+    ops.append({"kind": "create", "input": P("hexpay.yaml"), "family": "create", "pair": "hexpay"})
+    # the same description as descs[0], saved by an editor that writes a UTF-8 byte order mark
+    import yaml as _yaml
+
+    with open(P("bom.yaml"), "wb") as fh:
+        fh.write(b"\xef\xbb\xbf" + _yaml.safe_dump(descs[0], sort_keys=False, allow_unicode=False).encode())
+    ops.append({"kind": "create", "input": P("bom.yaml"), "family": "create"})
     # a description nested far beyond the interpreter's recursion limit: refused alone - and must stay refused after other operations
     deep = [{"suit-condition-image-match": []}]
     for _ in range(600):
@@ -415,6 +428,11 @@ def run_shard(ctx, spec):
         others = [os.path.join(ctx.scratch, "elsewhere"), os.path.join(ctx.scratch, "a", "deeper dir")]
         for o in others:
             os.makedirs(o, exist_ok=True)
+            # files in the OTHER working directories whose names are the inline hex payloads / relative names used by pool descriptions
+            for fn in ("C0FFEE", "c0ffee", "00", "deadbeef", "blob1.bin", "child.suit", "keys"):
+                if not os.path.exists(os.path.join(o, fn)):
+                    with open(os.path.join(o, fn), "wb") as fh:
+                        fh.write(b"a file of this name in the working directory " + fn.encode())
         for hi, hs in enumerate(HASHSEEDS if ctx.thorough else HASHSEEDS[:4] + [4242]):
             got = references(pool, list(range(n)), hashseed=hs, cwd=others[hi % 2], guard=guard)
             for i in range(n):
